@@ -1062,7 +1062,10 @@ def isfixedtupletype(obj: type) -> compat.TypeIs[type[tuple]]:
     """
     a = args(obj)
     origin = tp.get_origin(obj)
-    if not a or a[-1] is ...:
+    if a and a[-1] is ...:
+        return False
+    # `tuple[()]` is the fixed tuple of no members; the bare aliases carry no `__args__`.
+    if not a and not hasattr(obj, "__args__"):
         return False
     return _safe_issubclass(origin, tuple)
 
